@@ -3,3 +3,4 @@ import Proofs.Scan
 import Proofs.Cli
 import Proofs.CliClean
 import Proofs.CliContract
+import Proofs.CliConc
